@@ -166,15 +166,25 @@ def baseFn : Fn :=
   { name := "f", flags := flagsOfSource "f" "", qualDotted := false,
     params := [{ name := 1, kind := .posOrKw, ann := some (.cls 2), dflt := none }], selfName := 0,
     firstIsSelf := false, isBound := false, retAnn := some (.cls 2), genRet := .notGenType, flavour := .sync, mode := .pedantic }
-/-- region `bodyMentionsStaticmethod`: a comment containing `@staticmethod` in a plain function turns the conforming
-    keyword call `f(a=1)` into an IndexError -/
-theorem text_dependent_witness :
+/-- (was region `bodyMentionsStaticmethod`, repaired) the predicates "static method", "property setter", "decorated with
+    pedantic" and the decorator count read only the decorator lines - the source text in front of the first `def`: two
+    sources with the same decorator lines give the same four flags, whatever the body, comments or docstring say -/
+theorem header_flags_ignore_body (name s s' : String) (h : headerOf s = headerOf s') :
+    (flagsOfSource name s).isStatic = (flagsOfSource name s').isStatic ∧
+    (flagsOfSource name s).isSetter = (flagsOfSource name s').isSetter ∧
+    (flagsOfSource name s).isPedantic = (flagsOfSource name s').isPedantic ∧
+    (flagsOfSource name s).numDecorators = (flagsOfSource name s').numDecorators := by
+  have hs : staticInHeader = true ∧ setterInHeader = true ∧ pedanticInHeader = true := by decide
+  simp only [flagsOfSource, scopeOf, hs.1, hs.2.1, hs.2.2, ↓reduceIte, h, and_self]
+/-- … e.g. a comment containing `@staticmethod` in a plain function no longer turns the conforming keyword call `f(a=1)`
+    into an IndexError -/
+theorem body_text_example :
     (runCall envW (fun _ _ => .raisedOther) { baseFn with flags := flagsOfSource "f" "@pedantic\ndef f(a: int) -> int:\n    return a\n" }
         [] [(1, .lit (.int 1))] (.ret (.lit (.int 1)))).caller = .ret ∧
-    (runCall envW (fun _ _ => .raisedOther) { baseFn with flags := flagsOfSource "f" "@pedantic\ndef f(a: int) -> int:\n    # see staticmethod\n    return a\n" }
-        [] [(1, .lit (.int 1))] (.ret (.lit (.int 1)))).caller = .ret ∧
     (runCall envW (fun _ _ => .raisedOther) { baseFn with flags := flagsOfSource "f" "@pedantic\ndef f(a: int) -> int:\n    # no @staticmethod here\n    return a\n" }
-        [] [(1, .lit (.int 1))] (.ret (.lit (.int 1)))).caller = .escape "IndexError" := by decide
+        [] [(1, .lit (.int 1))] (.ret (.lit (.int 1)))).caller = .ret ∧
+    (runCall envW (fun _ _ => .raisedOther) { baseFn with flags := flagsOfSource "f" "@pedantic\ndef f(a: int) -> int:\n    \"\"\" @f.setter @pedantic *args \"\"\"\n    return a\n" }
+        [] [(1, .lit (.int 1))] (.ret (.lit (.int 1)))).caller = .ret := by decide
 
 -- non-vacuity of `transparent`
 example : allConforming envW { baseFn with flags := flagsOfSource "f" "@pedantic\ndef f(a: int) -> int:\n    return a\n" }
